@@ -301,6 +301,7 @@ def compare(it, op, a, b):
         return Not(r)
     name = {ast.Lt: "__lt__", ast.LtE: "__le__", ast.Gt: "__gt__", ast.GtE: "__ge__"}[type(op)]
     refl = {"__lt__": "__gt__", "__le__": "__ge__", "__gt__": "__lt__", "__ge__": "__le__"}[name]
+    a, b = it.deopt(a), it.deopt(b)
     if isinstance(a, SObj):
         m = inspect.getattr_static(a.cls, name, None)
         if isinstance(m, types.FunctionType):
@@ -321,9 +322,21 @@ def compare(it, op, a, b):
             return True if tb is None else (tb.is_empty() if ta is None else tb.issubset(ta))
         raise OutOfSubset("strict set comparison")
     if isinstance(a, Sym):
-        return getattr(a, name)(b)
+        try:
+            r = getattr(a, name)(b)
+        except OutOfSubset:
+            r = NotImplemented
+        if r is not NotImplemented:
+            return r
     if isinstance(b, Sym):
-        return getattr(b, refl)(a)
+        try:
+            r = getattr(b, refl)(a)
+        except OutOfSubset:
+            r = NotImplemented
+        if r is not NotImplemented:
+            return r
+    if isinstance(a, Sym) or isinstance(b, Sym):
+        _raise(TypeError(f"ordering not supported between {type(a).__name__} and {type(b).__name__}"))
     if isinstance(a, SObj) or isinstance(b, SObj):
         raise OutOfSubset(f"ordering of {a!r} and {b!r}")
     if isinstance(a, tuple) and isinstance(b, tuple) and (has_sym(a) or has_sym(b)):
